@@ -92,7 +92,7 @@ def constraints(n):
 
 
 OBJECTIVES, CONSTRAINTS = objectives(3), constraints(3)   # index ranges (the recipes are rebuilt per case for its vector size)
-METHODS = ["auto", "auto", "linprog", "SLSQP", "trust-constr", "L-BFGS-B", "solve_lp()"]   # solve_lp(): the public function of optyx.solvers.lp_solver
+METHODS = ["auto", "auto", "linprog", "SLSQP", "trust-constr", "L-BFGS-B", "solve_lp()", "BFGS"]   # BFGS: a method that takes no bounds (checked after the solve)   # solve_lp(): the public function of optyx.solvers.lp_solver
 CONVEX = [1, 2, 8, 9, 10, 11]  # strictly convex in every variable they mention... (5 and 4 are convex but mention fewer variables)
 BOUNDS = [None, -2, 0, 1, 3, -4, 2, 5]
 INIT_LB, INIT_UB = -10.0, 10.0
